@@ -37,10 +37,13 @@ def fstr(x):
 
 
 def norm_num(tok):
-    """Only two spellings are touched: an `int` coordinate (`10` -> `10.0`) and a negative zero."""
-    if re.fullmatch(r"-?[0-9]+", tok):
-        tok += ".0"
-    return "0.0" if tok == "-0.0" else tok
+    """A coordinate token re-printed BY VALUE (`repr(float(t) + 0.0)`): an `int` coordinate (`10` -> `10.0`), a
+    negative zero, trailing zeros (`10.5000`), an exponent -- TikZ reads the number, not its spelling.  `repr` of a
+    float determines the float, so two tokens are identified exactly when they denote the same float."""
+    try:
+        return repr(float(tok) + 0.0)
+    except ValueError:
+        return tok
 
 
 def normalise(text):
@@ -134,7 +137,13 @@ def compare(res, case, params, text, m):
     if mtext == text:
         res.dist["draw:text=bytes"] += 1
     elif mtext == normalise(text):
-        res.dist["draw:text=bytes after re-printing int/-0.0 coordinates"] += 1
+        res.dist["draw:text=bytes after re-printing the coordinates by value"] += 1
+    elif c15.canon_layers(mtext) is not None and c15.canon_layers(mtext) == c15.canon_layers(text):
+        # the same statements in every layer (colour names resolved, coordinates by value), emitted in another
+        # order: nothing in C13 / C15 depends on that order, and equal statements make the call-by-call comparison
+        # below redundant
+        res.dist["draw:text=same statements per layer, another order"] += 1
+        return
     else:
         res.tie_broken("drawCalls+assemble vs tikz.render (whole text)", case,
                        c15._first_diff(mtext, normalise(text)), None)
